@@ -1428,3 +1428,50 @@ func init() {
 		return p
 	}
 }
+
+func init() {
+	// The context given to Start is cancelled while one of the instance's own Create calls is on
+	// its way to a slow store, and Start is called again with a new context before that call is
+	// answered (a restart of the same object without Stop, so nothing is drained). The Create of
+	// the old run then succeeds - the new run leads on it - or fails because another owner was
+	// faster; that owner's record expires later and the new run has to fill the vacancy.
+	families["ctxrestart"] = func(r *Rng) *Plan {
+		p := &Plan{Judge: []string{"C19", "C06", "C08", "C05", "C03", "C04"}, NoJudge: []string{"C01", "C02", "C07"}}
+		baseTiming(r, p, hLattice[:5])
+		p.Insts = mkInsts(r, 1, 1)
+		p.Insts[0].V = Pick(r, []time.Duration{0, p.H})
+		p.Store = healthyStore(r, p.H/10)
+		slow := r.Dur(300*ms, 1500*ms)
+		intruder := []byte(`{"id":"intruder","token":"00000000-0000-4000-8000-000000000001","priority":0}`)
+		k := 1
+		t0 := time.Duration(0)
+		foreign := r.Bool(0.6)
+		if foreign {
+			// another owner's record is there first and expires TTL later (or is removed earlier):
+			// the slow Create is the one the instance sends when it notices that vacancy
+			p.Actions = append(p.Actions, Action{At: 0, Kind: AOutPut, Key: "g1", Value: intruder})
+			t0 = 10 * ms
+			k = 2
+			if r.Bool(0.5) {
+				p.Actions = append(p.Actions, Action{At: r.Dur(p.H, p.TTL), Kind: Pick(r, []string{AOutDelete, AExpire}), Key: "g1"})
+			}
+		}
+		p.Actions = append(p.Actions, Action{At: t0, Kind: AStart, Inst: 0})
+		p.Faults = append(p.Faults, Fault{Kind: FSlow, Inst: 0, Op: "create", OpN: k, Arg: slow})
+		cd := Pick(r, []time.Duration{0, 1, ms, slow / 4})
+		p.Actions = append(p.Actions, Action{Kind: ACancelStart, Inst: 0, OpKind: "create", OpN: k, Phase: "invoke", Delay: cd})
+		p.Actions = append(p.Actions, Action{Kind: AStart, Inst: 0, OpKind: "create", OpN: k, Phase: "invoke", Delay: cd + r.Dur(0, slow/2)})
+		if foreign && r.Bool(0.6) {
+			// the other owner is back before the slow Create is applied
+			p.Actions = append(p.Actions, Action{Kind: AOutPut, Key: "g1", Value: intruder, Inst: 0, OpKind: "create", OpN: k, Phase: "invoke", Delay: r.Dur(ms, slow-ms)})
+		}
+		for i := 0; i < r.Intn(3); i++ {
+			p.Actions = append(p.Actions, Action{At: r.Dur(p.TTL, 3*p.TTL+slow), Kind: Pick(r, []string{AValidateOD, AValidate}), Inst: 0})
+		}
+		p.Until = 3*p.TTL + 2*slow + 8*sec
+		p.Tail = 0
+		statusCalls(r, p)
+		p.Sched = SchedCfg{YieldProb: Pick(r, []float64{0, 0.2, 0.5}), StallMax: Pick(r, []time.Duration{0, 0, p.H / 50})}
+		return p
+	}
+}
